@@ -10,7 +10,10 @@ package main
 //        get S R W                     300 × GetBySwampName
 //        regtorn S R W M|P IDLE WI SIZE  the same registration while file writes are cut short after 1 byte (RLIMIT_FSIZE)
 //        restart                       settings.New on the same root; later ops use the new object
-// reply: case N | ok | res <sorted distinct results>   result = S/R/W|M|idle|wi|size
+//        live S R W                    hydra + gateway on top of the CURRENT settings object: Set one new key into the swamp,
+//                                      count its treasures, close it, ask whether it exists on disk — the settings the swamp
+//                                      was created with are what GetBySwampName resolves at that moment
+// reply: case N | ok | res <sorted distinct results>   result = S/R/W|M|idle|wi|size | live count=N disk=BOOL
 //
 // Every case keeps the number of distinct pattern keys ≤ 8 so that the Go map stays a single
 // group: each entry is then the first one visited with probability ≥ 1/8 per lookup, and the
@@ -30,9 +33,15 @@ import (
 	"syscall"
 	"time"
 
+	"context"
+
+	"github.com/hydraide/hydraide/app/core/filesystem"
 	"github.com/hydraide/hydraide/app/core/settings"
 	"github.com/hydraide/hydraide/app/core/settings/setting"
+	"github.com/hydraide/hydraide/app/core/zeus"
 	"github.com/hydraide/hydraide/app/name"
+	"github.com/hydraide/hydraide/app/server/gateway"
+	"github.com/hydraide/hydraide/sdk/go/hydraidego/v3/hydraidepbgo"
 )
 
 func init() { Register("C21", Domain{Gen: c21Gen, Run: c21Run}) }
@@ -43,6 +52,10 @@ var (
 	c21Sanct = []string{"a", "a", "a", "b", "*"}
 	c21Realm = []string{"x", "y", "*", "*"}
 	c21Swamp = []string{"p", "q", "*", "*"}
+	// parts that differ only in letter case, or that are a prefix of one another: ComparePattern is an exact comparison
+	c21SanctC = []string{"ab", "ab", "aB", "a", "*"}
+	c21RealmC = []string{"xy", "xY", "x", "*", "*"}
+	c21SwampC = []string{"pq", "Pq", "pqr", "*", "*"}
 )
 
 func c21Pick(rng *rand.Rand, l []string) string { return l[rng.Intn(len(l))] }
@@ -94,15 +107,51 @@ func c21Gen(rng *rand.Rand, tier string, w *bufio.Writer) {
 	fmt.Fprintln(w, "get a x p")
 	fmt.Fprintln(w, "get a y q")
 	fmt.Fprintln(w, "get b y p")
-	for c := 4; c < cases+4; c++ {
+	// corpus: the save of a registration is torn, the client registers the same pattern again (acknowledged), restart
+	fmt.Fprintln(w, "case 4")
+	fmt.Fprintln(w, "reg a x q M 4 0 0")
+	fmt.Fprintln(w, "regtorn b y p P 2 1 8192")
+	fmt.Fprintln(w, "reg b y p P 2 1 8192")
+	fmt.Fprintln(w, "restart")
+	fmt.Fprintln(w, "get b y p")
+	fmt.Fprintln(w, "get a x q")
+	// corpus: letter case and prefixes in every part
+	fmt.Fprintln(w, "case 5")
+	fmt.Fprintln(w, "reg ab xy pq M 4 0 0")
+	fmt.Fprintln(w, "reg ab xY * P 3 1 4096")
+	fmt.Fprintln(w, "reg aB * pq P 2 1 8192")
+	for _, n := range []string{"ab xy pq", "ab xY pq", "ab XY pq", "ab xy PQ", "ab xy Pq", "aB xy pq", "AB xy pq", "ab x pq", "ab xy p", "a xy pq"} {
+		fmt.Fprintln(w, "get "+n)
+	}
+	// corpus: the swamp is created with the settings registered AT THAT MOMENT: in-memory, re-registered persistent, again in-memory
+	fmt.Fprintln(w, "case 6")
+	fmt.Fprintln(w, "reg a x p M 4 0 0")
+	fmt.Fprintln(w, "live a x p")
+	fmt.Fprintln(w, "reg a x p P 4 0 8192")
+	fmt.Fprintln(w, "live a x p")
+	fmt.Fprintln(w, "live a x p")
+	fmt.Fprintln(w, "reg a x p M 3 0 0")
+	fmt.Fprintln(w, "live a x p")
+	fmt.Fprintln(w, "reg a * * P 3 1 8192")
+	fmt.Fprintln(w, "live a x p")
+	fmt.Fprintln(w, "live a y q")
+	fmt.Fprintln(w, "dereg a x p")
+	fmt.Fprintln(w, "live a x p")
+	fmt.Fprintln(w, "restart")
+	fmt.Fprintln(w, "live a x p")
+	for c := 7; c < cases+7; c++ {
 		fmt.Fprintf(w, "case %d\n", c)
+		sanct, realm, swamp := c21Sanct, c21Realm, c21Swamp
+		if rng.Intn(3) == 0 {
+			sanct, realm, swamp = c21SanctC, c21RealmC, c21SwampC
+		}
 		keys := []string{}
 		has := map[string]bool{}
 		pickKey := func() string {
 			if len(keys) >= 8 || (len(keys) > 0 && rng.Intn(4) == 0) {
 				return keys[rng.Intn(len(keys))]
 			}
-			k := c21Pick(rng, c21Sanct) + " " + c21Pick(rng, c21Realm) + " " + c21Pick(rng, c21Swamp)
+			k := c21Pick(rng, sanct) + " " + c21Pick(rng, realm) + " " + c21Pick(rng, swamp)
 			if !has[k] {
 				has[k] = true
 				keys = append(keys, k)
@@ -110,7 +159,7 @@ func c21Gen(rng *rand.Rand, tier string, w *bufio.Writer) {
 			return k
 		}
 		name := func() string {
-			return c21Pick(rng, c21Sanct) + " " + c21Pick(rng, c21Realm[:3]) + " " + c21Pick(rng, c21Swamp[:3])
+			return c21Pick(rng, sanct) + " " + c21Pick(rng, realm[:3]) + " " + c21Pick(rng, swamp[:3])
 		}
 		reg := func() {
 			k := pickKey()
@@ -138,9 +187,18 @@ func c21Gen(rng *rand.Rand, tier string, w *bufio.Writer) {
 			case x < 11:
 				if rng.Intn(3) == 0 {
 					k := pickKey()
-					fmt.Fprintf(w, "regtorn %s P %d 1 4096\n", k, 1+rng.Intn(4))
+					idle := 1 + rng.Intn(4)
+					fmt.Fprintf(w, "regtorn %s P %d 1 4096\n", k, idle)
+					switch rng.Intn(3) {
+					case 0: // the client retries the very same registration
+						fmt.Fprintf(w, "reg %s P %d 1 4096\n", k, idle)
+					case 1: // …or some other operation touches the file first
+						reg()
+					}
 				}
 				fmt.Fprintln(w, "restart")
+			case x < 13:
+				fmt.Fprintf(w, "live %s %s %s\n", c21Pick(rng, sanct[:4]), c21Pick(rng, realm[:3]), c21Pick(rng, swamp[:3]))
 			default:
 				fmt.Fprintf(w, "get %s\n", name())
 			}
@@ -173,8 +231,19 @@ func c21Render(s setting.Setting) string {
 func c21Run(in *bufio.Scanner, w *bufio.Writer) {
 	slog.SetDefault(slog.New(slog.NewTextHandler(io.Discard, nil)))
 	var st settings.Settings
+	var zs zeus.Zeus
+	var gw *gateway.Gateway
+	liveKeys := 0
+	stopHydra := func() {
+		if zs != nil {
+			zs.StopHydra()
+			zs, gw = nil, nil
+		}
+	}
+	defer stopHydra()
 	root := ""
 	cleanup := func() {
+		stopHydra()
 		if root != "" {
 			_ = os.RemoveAll(root)
 			root = ""
@@ -260,8 +329,41 @@ func c21Run(in *bufio.Scanner, w *bufio.Writer) {
 				sort.Strings(rs)
 				fmt.Fprintln(w, "res "+strings.Join(rs, " "))
 			case f[0] == "restart" && len(f) == 1:
+				stopHydra()
 				st = settings.New(3, 2000)
 				fmt.Fprintln(w, "ok")
+			case f[0] == "live" && len(f) == 4:
+				if zs == nil {
+					miscQuiet()
+					zs = zeus.New(st, filesystem.New())
+					zs.StartHydra()
+					gw = &gateway.Gateway{SettingsInterface: st, ZeusInterface: zs, DefaultCloseAfterIdle: 600, DefaultWriteInterval: 0, DefaultFileSize: 8192}
+				}
+				full := f[1] + "/" + f[2] + "/" + f[3]
+				ctx, cancel := context.WithTimeout(context.Background(), HxScale(30*time.Second))
+				defer cancel()
+				liveKeys++
+				key := "k" + strconv.Itoa(liveKeys)
+				if _, err := gw.Set(ctx, &hydraidepbgo.SetRequest{Swamps: []*hydraidepbgo.SwampRequest{{IslandID: 1, SwampName: full,
+					CreateIfNotExist: true, Overwrite: true, KeyValues: []*hydraidepbgo.KeyValuePair{{Key: key, StringVal: &key}}}}}); err != nil {
+					fmt.Fprintln(w, "err set")
+					return
+				}
+				cnt, err := gw.Count(ctx, &hydraidepbgo.CountRequest{Swamps: []*hydraidepbgo.CountRequest_SwampIdentifier{{IslandID: 1, SwampName: full}}})
+				if err != nil || len(cnt.GetSwamps()) != 1 {
+					fmt.Fprintln(w, "err count")
+					return
+				}
+				if !c20Close(&Rig{Zeus: zs}, full) {
+					fmt.Fprintln(w, "timeout close")
+					return
+				}
+				onDisk, err := zs.GetHydra().IsExistSwamp(1, name.Load(full))
+				if err != nil {
+					fmt.Fprintln(w, "err exist")
+					return
+				}
+				fmt.Fprintf(w, "live count=%d disk=%v\n", cnt.GetSwamps()[0].GetCount(), onDisk)
 			default:
 				fmt.Fprintln(w, "bad-op")
 			}
